@@ -465,6 +465,11 @@ func normalizeValue(
 		d := v.Interface().(time.Duration)
 		return newString(ctx, opts.meta, d.String()), nil
 	case tRegexp:
+		if !v.CanAddr() {
+			// a Regexp stored by value in a map, or in a struct that was
+			// passed by value
+			v = settableCopy(v)
+		}
 		r := v.Addr().Interface().(*regexp.Regexp)
 		return newString(ctx, opts.meta, r.String()), nil
 	}
